@@ -410,6 +410,9 @@ func (interp *Interpreter) parse(src, name string, inc bool) (node ast.Node, err
 		if err != nil {
 			return nil, initialError
 		}
+		// The statement is evaluated as any other one, and not as a main
+		// function which every following evaluation would run again.
+		inFunc = true
 	}
 
 	if inFunc {
